@@ -14,11 +14,11 @@ Proof. unfold didjwk_try_from_core. destruct (list_eqb (fst c) JWK_METHOD) eqn:E
 Theorem didjwk_accessor_never_panics s v : (didjwk_parse J dj s = Ok v \/ didjwk_serde J dj s = Ok v) -> didjwk_jwk J dj v <> Panic.
 Proof. unfold didjwk_parse, didjwk_serde, didjwk_jwk. intros [H|H].
   - destruct (core_did_parse s) as [c|e|]; cbn [obind] in H; try discriminate. destruct (try_from_core_ok _ _ H) as [_ [_ [j ->]]]. discriminate.
-  - destruct (core_did_from_base s) as [c|e|]; cbn [obind] in H; try discriminate. destruct (try_from_core_ok _ _ H) as [_ [_ [j ->]]]. discriminate. Qed.
+  - destruct (core_did_parse s) as [c|e|]; cbn [obind] in H; try discriminate. destruct (try_from_core_ok _ _ H) as [_ [_ [j ->]]]. discriminate. Qed.
 Theorem didjwk_routes_validate s v : (didjwk_parse J dj s = Ok v \/ didjwk_serde J dj s = Ok v) -> fst v = JWK_METHOD /\ exists j, dj (snd v) = Some j /\ didjwk_jwk J dj v = Ok j.
 Proof. unfold didjwk_parse, didjwk_serde, didjwk_jwk. intros [H|H].
   - destruct (core_did_parse s) as [c|e|]; cbn [obind] in H; try discriminate. destruct (try_from_core_ok _ _ H) as [_ [M [j D]]]. split; [exact M|]. exists j. rewrite D. split; reflexivity.
-  - destruct (core_did_from_base s) as [c|e|]; cbn [obind] in H; try discriminate. destruct (try_from_core_ok _ _ H) as [_ [M [j D]]]. split; [exact M|]. exists j. rewrite D. split; reflexivity. Qed.
+  - destruct (core_did_parse s) as [c|e|]; cbn [obind] in H; try discriminate. destruct (try_from_core_ok _ _ H) as [_ [M [j D]]]. split; [exact M|]. exists j. rewrite D. split; reflexivity. Qed.
 End P.
 (* a deserialiser that skips TryFrom<CoreDID> hands out a value whose accessor panics (what a `#[serde(transparent)]` would do) *)
 Theorem didjwk_transparent_serde_panics : exists s v, didjwk_serde_transparent s = Ok v /\ didjwk_jwk unit (fun _ => None) v = Panic.
